@@ -65,6 +65,19 @@ CHECKS = {
          "Every def sequence of length <=3 (thorough 4) over an 80-letter alphabet followed by calls to umask / malloc / a 2-parameter symbol; whenever the reference yields constants the umask and sizeof decisions are required.",
          "Trusted: the constant propagation in shared/c18_model.rs; unknown values are never judged.",
          "DESIGN.md §C18"),
+ "C21": (MC, "exhaustive bounded enumeration of generated P-Code projects x ELF variants x check selections through the real CLI binary (--pcode-raw), judged on exit status, stderr and the JSON output",
+         "Every project of a bounded family (1-3 functions from body templates, extern-table variants, ELF variants incl. kernel-module objects) is analysed by the real cwe_checker binary with the shipped configuration under default, all-checks and single-check selections; exit status 0, clean stderr, well-formed and canonically sorted JSON with known check names/versions are required.",
+         "Trusted: the P-Code/ELF generators in shared/cli_*.rs; --pcode-raw replaces only the Ghidra subprocess. Warnings named CWE125/CWE787/CWE415 and the Memory check's CWE476 are accepted as documented behaviour.",
+         "DESIGN.md §C21"),
+ "C22": (MC, "exhaustive enumeration of check selections (default, kernel-module default, every single name, all pairs, all names, complements, duplicates, trailing comma, empty) through the real CLI built with the VERIF-RUN hook",
+         "For inputs that make several syntactic checks fire, the executed set reported by the hook must equal the requested set, warnings must come from executed checks only and be identical to the all-checks run per check; --module-versions must list every module once.",
+         "Trusted: the hook commit 372b0af (additive, cfg-guarded). An unknown check name is rejected by a panic, which the statement allows (not silently ignored).",
+         "DESIGN.md §C22"),
+ "C23": ("exploration", "bounded exploration of owned hash seeds: every C21 input is analysed under K seeds (LD_PRELOAD getrandom shim makes HashMap iteration order a function of the seed), outputs must be byte-identical; the thread-scheduling half is decided exhaustively by C25",
+         "Every input of the C21 family under 8 (quick) / 64 (thorough) owned hash seeds with default and all-checks selections; stdout must be byte-identical across seeds. Not exhaustive: the seed space (2^128) cannot be enumerated, so a divergence that needs a rare permutation can be missed.",
+         "Trusted: the LD_PRELOAD shim (verified at start-up to change iteration order). exhaustive=false by construction.",
+         "DESIGN.md §C23"),
+
  "C24": (MC, "exhaustive enumeration of all call graphs up to a size bound x all (source,target) pairs against a reachability-closure oracle",
          "All call graphs on <=3 functions (thorough 4, and 5 with unordered call pairs) with <=2 calls per function targeting any function, an extern, an indirect target or a missing TID; every ordered pair of functions is queried.",
          "Trusted: the bit-mask closure oracle in c24.rs.",
